@@ -19,7 +19,7 @@ pub fn def() -> PropDef {
         required.push(format!("decoder:{}", DECODERS[d].0));
         required.push(format!("ok:{}", DECODERS[d].0));
     }
-    for k in ["valid", "prefix", "bitflip", "byteflip", "length", "coord>=q", "coord+q", "swap", "neg-y", "cross-format", "all-zero", "all-ff", "x-no-point", "twist-nonmember", "unstructured"] {
+    for k in ["valid", "prefix", "bitflip", "byteflip", "length", "coord>=q", "coord+q", "swap", "neg-y", "cross-format", "all-zero", "all-ff", "x-no-point", "twist-nonmember", "unstructured", "ysq-target"] {
         required.push(format!("kind:{}", k));
     }
     PropDef {
@@ -212,7 +212,73 @@ pub fn decoder_bytes(s: &mut Src, d: usize) -> (Vec<u8>, String) {
     let mut v = valid_for(d, &p1, &p2);
     let off = if fmt == 0 { 0 } else { 1 };
     let ncoord = (len - off) / 32;
-    let kind = s.weighted(&[10, 5, 6, 4, 5, 8, 6, 4, 2, 4, 1, 1, 3, 4, 6]);
+    let kind = s.weighted(&[10, 5, 6, 4, 5, 8, 6, 4, 2, 4, 1, 1, 3, 4, 6, 4]);
+    if kind == 15 {
+        // x solved so that y^2 = x^3 + b is a chosen boundary value t (real only, imaginary only, small, -1, ...):
+        // x = cbrt(t - b). Exercises the square root / parity step of the compressed decoders on special y^2.
+        if is_g2 {
+            let comp = |s: &mut Src| -> F {
+                match s.choose(5) {
+                    0 | 1 => F::zero(),
+                    2 => F::one(),
+                    3 => F::from(1 + s.choose(16) as u64),
+                    _ => rf::f_from_big(&felt(s, Md::Q).v),
+                }
+            };
+            for _ in 0..8 {
+                let t = R2::new(comp(s), comp(s));
+                if let Some(x) = t.sub(&rf::b2()).cbrt() {
+                    let pfx = if s.bool() { 2u8 } else { 3u8 };
+                    let body = enc_r2(&x);
+                    let out = match fmt {
+                        2 => with_prefix(pfx, &body),
+                        _ => {
+                            // raw / uncompressed: x with y = sqrt(t) when it exists (else y = t)
+                            let y = t.sqrt().unwrap_or(t);
+                            let mut v2 = body.clone();
+                            v2.extend_from_slice(&enc_r2(&y));
+                            if fmt == 1 {
+                                with_prefix(4, &v2)
+                            } else {
+                                v2
+                            }
+                        }
+                    };
+                    return (out, "ysq-target".into());
+                }
+            }
+        } else {
+            for _ in 0..8 {
+                let t = match s.choose(4) {
+                    0 => BigUint::from(s.choose(17) as u32),
+                    1 => q - 1u32 - BigUint::from(s.choose(17) as u32),
+                    _ => felt(s, Md::Q).v,
+                };
+                let c = zp::sub_mod(&t, &BigUint::from(5u32), q);
+                // q = 4 (mod 9): cube roots of cubic residues are c^((2q+1)/9)
+                let x = c.modpow(&((q * 2u32 + 1u32) / 9u32), q);
+                if zp::mul_mod(&zp::mul_mod(&x, &x, q), &x, q) == c {
+                    let pfx = if s.bool() { 2u8 } else { 3u8 };
+                    let body = zp::be32(&x).to_vec();
+                    let out = match fmt {
+                        2 => with_prefix(pfx, &body),
+                        _ => {
+                            let y = zp::sqrt_mod_5mod8(&t, q).unwrap_or(t.clone());
+                            let mut v2 = body.clone();
+                            v2.extend_from_slice(&zp::be32(&y));
+                            if fmt == 1 {
+                                with_prefix(4, &v2)
+                            } else {
+                                v2
+                            }
+                        }
+                    };
+                    return (out, "ysq-target".into());
+                }
+            }
+        }
+        return (v, "valid".into());
+    }
     match kind {
         0 => (v, "valid".into()),
         1 => {
